@@ -459,7 +459,8 @@ impl<W: 'static, R: 'static, T: 'static> XSequence<W, R, T> {
                 items.swap(piv_idx, right);
                 items[right].clone()
             };
-            for j in left..=right {
+            // the pivot itself (now at `right`) is not compared: a comparator that claims x < x must not push the split past the end
+            for j in left..right {
                 let c = forward_err!(cmp(items[j].clone(), pivot.clone())?);
                 if c == -1 {
                     items.swap(j, ret);
